@@ -122,6 +122,79 @@ func c05Judge(c *rep.Ctx, route, doc string, f model.Forest, fm model.Fmt4, stop
 	}
 }
 
+// c05WalkAddWalk: build the tree with the real API, walk it, Add "zz" under the parent-th node, walk again.
+func c05WalkAddWalk(c *rep.Ctx, d []int, names []string, parent int, route string) {
+	f := enum.Build(d, names)
+	var real []*gtree.Node
+	var mnodes []*model.Node
+	var rec func(m *model.Node, g *gtree.Node)
+	rec = func(m *model.Node, g *gtree.Node) {
+		real = append(real, g)
+		mnodes = append(mnodes, m)
+		for _, k := range m.Kids {
+			dup := false
+			for _, prev := range m.Kids {
+				if prev == k {
+					break
+				}
+				if prev.Name == k.Name {
+					dup = true
+				}
+			}
+			if dup {
+				continue // the model tree for this sub-check is built without duplicate sibling names
+			}
+			rec(k, g.Add(k.Name))
+		}
+	}
+	mroot := model.MergeNode(f[0])
+	root := gtree.NewRoot(mroot.Name)
+	rec(mroot, root)
+	if parent >= len(real) {
+		return
+	}
+	walk := func() (rows []sut.WalkRow, err error) {
+		if route == "iter" {
+			for wn, e := range gtree.WalkIterFromRoot(root) {
+				if e != nil {
+					return rows, e
+				}
+				rows = append(rows, sut.FromWalker(wn))
+			}
+			return rows, nil
+		}
+		err = gtree.WalkFromRoot(root, func(wn *gtree.WalkerNode) error { rows = append(rows, sut.FromWalker(wn)); return nil })
+		return
+	}
+	var r1, r2 []sut.WalkRow
+	var e1, e2 error
+	pan := sut.Guard(func() {
+		r1, e1 = walk()
+		real[parent].Add("zz")
+		mnodes[parent].Kids = append(mnodes[parent].Kids, &model.Node{Name: "zz"})
+		r2, e2 = walk()
+	})
+	c.Eval()
+	c.Trans(len(r1) + len(r2))
+	desc := fmt.Sprintf("tree %s, walk, Add(\"zz\") under node #%d, walk again (%s)", model.Key(model.Forest{f[0]}), parent, route)
+	if pan != "" || e1 != nil || e2 != nil {
+		c.Violation("C05|walk-add-walk|error", fmt.Sprintf("%s: %v %v %s", desc, e1, e2, pan), len(d), nil)
+		return
+	}
+	want := model.Rows(mroot, model.DefaultFmt)
+	if len(r2) != len(want) {
+		c.Violation("C05|walk-add-walk|wrong-rows", fmt.Sprintf("%s: %d rows, want %d", desc, len(r2), len(want)), len(d), nil)
+		return
+	}
+	for i, g := range r2 {
+		w := want[i]
+		if g.Row != w.Line || g.Branch != w.Branch || g.Path != w.Path || g.HasChild != w.HasChild {
+			c.Violation("C05|walk-add-walk|wrong-rows", fmt.Sprintf("%s: row %d is %+v, want %+v", desc, i, g, w), len(d), nil)
+			return
+		}
+	}
+}
+
 func init() {
 	props["C05"] = func(c *rep.Ctx) {
 		maxN := 7
@@ -159,6 +232,35 @@ func init() {
 								c05Judge(c, "root", doc, f, fm, stop)
 								c05Judge(c, "iter", doc, f, fm, stop)
 							}
+						}
+					}
+				})
+			})
+		}
+		// walk, Add a node anywhere, walk the same root again: the second walk must describe the grown tree
+		// (branches are recomputed, nothing is remembered from the first walk)
+		wn := 5
+		if c.Thorough() {
+			wn = 6
+		}
+		for n := 1; n <= wn && !c.Expired(); n++ {
+			enum.DepthSeqs(n, func(d []int) {
+				if d[len(d)-1] == 1 && n > 1 {
+					return // single-root trees only
+				}
+				for _, x := range d[1:] {
+					if x == 1 {
+						return
+					}
+				}
+				enum.Tuples(n, 2, func(t []int) {
+					if !c.Take() || c.Expired() {
+						return
+					}
+					names := enum.Pick([]string{"a", "b"}, t)
+					for parent := 0; parent < n; parent++ {
+						for _, route := range []string{"root", "iter"} {
+							c05WalkAddWalk(c, d, names, parent, route)
 						}
 					}
 				})
